@@ -102,7 +102,7 @@ fn units<'a>(sect: &str, sec: &'a [u8], e: RunTimeEndian) -> (Vec<UnitHeader<R<'
     (out, end)
 }
 
-fn first_unit<'a>(sect: &str, sec: &'a [u8], abbrev: &'a [u8], e: RunTimeEndian) -> gimli::Result<(UnitHeader<R<'a>>, Abbreviations)> {
+pub fn first_unit<'a>(sect: &str, sec: &'a [u8], abbrev: &'a [u8], e: RunTimeEndian) -> gimli::Result<(UnitHeader<R<'a>>, Abbreviations)> {
     let h = if sect == "types" {
         match DebugTypes::new(sec, e).units().next()? {
             Some(h) => h,
@@ -921,47 +921,81 @@ fn tag_numbers() -> std::collections::HashMap<&'static str, u16> {
     m
 }
 
-/// (unit start, next unit, items) per unit of one section of an `llvm-dwarfdump` listing
-fn parse_dump(text: &str, section_title: &str, tags: &std::collections::HashMap<&'static str, u16>) -> Vec<(usize, usize, Option<Vec<(usize, isize, u16)>>)> {
-    let mut units: Vec<(usize, usize, Option<Vec<(usize, isize, u16)>>)> = Vec::new();
+/// one entry of an `llvm-dwarfdump -v` listing: section offset, depth (from the indentation), tag name
+/// (`NULL` for a null entry) and its attribute lines `(DW_AT_x, DW_FORM_y, text of the value)`
+#[derive(Clone, Debug)]
+pub struct DumpDie {
+    pub off: usize,
+    pub depth: isize,
+    pub tag: String,
+    pub attrs: Vec<(String, String, String)>,
+}
+
+/// one unit of the compiler-built corpus
+pub struct CorpusUnit {
+    pub endian: &'static str,
+    pub sect: &'static str,
+    pub abbrev_hex: String,
+    pub unit_hex: String,
+    /// offset of the unit in its section (listing offsets are section offsets)
+    pub start: usize,
+    /// an unlinked object: section offsets and addresses in it are still to be relocated (llvm-dwarfdump shows them relocated)
+    pub relocatable: bool,
+    pub dies: Vec<DumpDie>,
+}
+
+/// (unit start, next unit, entries) per unit of one section of an `llvm-dwarfdump -v` listing
+fn parse_dump(text: &str, section_title: &str) -> Vec<(usize, usize, Vec<DumpDie>)> {
+    let mut units: Vec<(usize, usize, Vec<DumpDie>)> = Vec::new();
     let mut in_sec = false;
     for line in text.lines() {
         if line.ends_with(" contents:") {
             in_sec = line.trim_end_matches(" contents:") == section_title;
             continue;
         }
-        if !in_sec || !line.starts_with("0x") {
+        if !in_sec {
             continue;
         }
-        let Some((off_s, rest)) = line.split_once(':') else { continue };
-        let Ok(off) = usize::from_str_radix(off_s.trim_start_matches("0x"), 16) else { continue };
-        if rest.contains(" Unit: length") {
-            let next = rest.rsplit("next unit at 0x").next().and_then(|t| usize::from_str_radix(t.trim_end_matches(')'), 16).ok());
-            if let Some(n) = next {
-                units.push((off, n, Some(Vec::new())));
+        if line.starts_with("0x") {
+            let Some((off_s, rest)) = line.split_once(':') else { continue };
+            let Ok(off) = usize::from_str_radix(off_s.trim_start_matches("0x"), 16) else { continue };
+            if rest.contains(" Unit: length") {
+                let next = rest.rsplit("next unit at 0x").next().and_then(|t| usize::from_str_radix(t.trim_end_matches(')'), 16).ok());
+                if let Some(n) = next {
+                    units.push((off, n, Vec::new()));
+                }
+                continue;
             }
-            continue;
-        }
-        let spaces = rest.len() - rest.trim_start().len();
-        let word = rest.trim_start().split_whitespace().next().unwrap_or("");
-        let Some(u) = units.last_mut() else { continue };
-        let tag = if word == "NULL" { Some(0u16) } else { tags.get(word).copied() };
-        match (tag, u.2.as_mut()) {
-            (Some(t), Some(v)) if spaces >= 1 => v.push((off, ((spaces - 1) / 2) as isize, t)),
-            _ => u.2 = None, // a tag name we cannot map: no expectation for this unit
+            let spaces = rest.len() - rest.trim_start().len();
+            let word = rest.trim_start().split_whitespace().next().unwrap_or("");
+            if let Some(u) = units.last_mut() {
+                u.2.push(DumpDie { off, depth: (spaces.saturating_sub(1) / 2) as isize, tag: word.to_string(), attrs: vec![] });
+            }
+        } else {
+            // `  DW_AT_name [DW_FORM_strp]\t( .debug_str[0x0000002b] = "…")`
+            let t = line.trim_start();
+            if !t.starts_with("DW_AT_") {
+                continue;
+            }
+            let Some((name, rest)) = t.split_once(" [") else { continue };
+            let Some((form, val)) = rest.split_once(']') else { continue };
+            if let Some(d) = units.last_mut().and_then(|u| u.2.last_mut()) {
+                d.attrs.push((name.to_string(), form.to_string(), val.trim().to_string()));
+            }
         }
     }
     units
 }
 
-pub fn corpus_lines() -> Vec<String> {
+/// build the corpus (gcc/g++/clang/clang++; needs llvm-dwarfdump and objcopy) and list its units
+pub fn corpus_units() -> Vec<CorpusUnit> {
     let dir = std::path::PathBuf::from(concat!(env!("CARGO_MANIFEST_DIR"), "/target/c02-corpus"));
     let _ = std::fs::create_dir_all(&dir);
     if std::fs::write(dir.join("a.c"), SRC_C).is_err() || std::fs::write(dir.join("b.cpp"), SRC_CPP).is_err() {
         return vec![];
     }
     // (compiler, arguments, output file, endian token)
-    let builds: Vec<(&str, Vec<&str>, &str, &str)> = vec![
+    let builds: Vec<(&str, Vec<&str>, &str, &'static str)> = vec![
         ("gcc", vec!["-g", "-O1", "a.c", "-o", "g5.out"], "g5.out", "le"),
         ("gcc", vec!["-g", "-gdwarf-4", "-fdebug-types-section", "a.c", "-o", "g4t.out"], "g4t.out", "le"),
         ("gcc", vec!["-g", "-gdwarf-3", "-O2", "a.c", "-o", "g3.out"], "g3.out", "le"),
@@ -979,13 +1013,12 @@ pub fn corpus_lines() -> Vec<String> {
         ("clang", vec!["--target=mips-unknown-linux-gnu", "-g", "-gdwarf-4", "-c", "a.c", "-o", "mips.o"], "mips.o", "be"),
         ("clang++", vec!["-g", "-gdwarf-5", "-O1", "-c", "b.cpp", "-o", "cpp5.o"], "cpp5.o", "le"),
     ];
-    let tags = tag_numbers();
     let mut out = Vec::new();
     for (cc, args, file, e) in builds {
         if run(cc, &args, &dir).is_none() {
             continue;
         }
-        let Some(dump) = run("llvm-dwarfdump", &["--debug-info", "--debug-types", file], &dir) else { continue };
+        let Some(dump) = run("llvm-dwarfdump", &["-v", "--debug-info", "--debug-types", file], &dir) else { continue };
         for (info, abbrev, sect) in [
             (".debug_info", ".debug_abbrev", "info"),
             (".debug_types", ".debug_abbrev", "types"),
@@ -1005,34 +1038,46 @@ pub fn corpus_lines() -> Vec<String> {
             }
             let (Ok(ibytes), Ok(abytes)) = (std::fs::read(&ib), std::fs::read(&ab)) else { continue };
             let ah = hex(&abytes);
-            for (start, next, items) in parse_dump(&dump, info, &tags) {
-                if next > ibytes.len() || start >= next {
+            for (start, next, dies) in parse_dump(&dump, info) {
+                if next > ibytes.len() || start >= next || dies.is_empty() {
                     continue;
                 }
-                let sh = hex(&ibytes[start..next]);
-                let Some(items) = items else { continue };
-                if items.is_empty() {
-                    continue;
-                }
-                // children flag: the next listed entry is one level deeper
-                let full: Vec<Item> = items
-                    .iter()
-                    .enumerate()
-                    .map(|(i, &(o, d, t))| (o - start, d, t, t != 0 && items.get(i + 1).map_or(false, |n| n.1 == d + 1)))
-                    .collect();
-                let exp = exp_tok(&items_s(&full), &sh);
-                out.push(format!("die-hdr {e} {sect} {sh}"));
-                for st in ["raw", "rawskip", "entry", "dfs", "sib", "tree", "treeskip"] {
-                    out.push(format!("die-nav {st} {e} {sect} {ah} {sh} - {exp}"));
-                }
-                let offs: Vec<String> = full.iter().take(300).map(|i| i.0.to_string()).collect();
-                out.push(format!("die-at {e} {sect} {ah} {sh} {} {exp}", offs.join(",")));
-                // a few start positions in the middle
-                for k in [full.len() / 3, full.len() / 2, full.len() - 1] {
-                    out.push(format!("die-nav sib {e} {sect} {ah} {sh} {} {exp}", full[k].0));
-                    out.push(format!("die-nav tree {e} {sect} {ah} {sh} {} {exp}", full[k].0));
-                }
+                out.push(CorpusUnit { endian: e, sect, abbrev_hex: ah.clone(), unit_hex: hex(&ibytes[start..next]), start, relocatable: file.ends_with(".o"), dies });
             }
+        }
+    }
+    out
+}
+
+pub fn corpus_lines() -> Vec<String> {
+    let tags = tag_numbers();
+    let mut out = Vec::new();
+    for u in corpus_units() {
+        // tag numbers; a name we cannot map means no expectation for this unit
+        let items: Option<Vec<(usize, isize, u16)>> = u
+            .dies
+            .iter()
+            .map(|d| if d.tag == "NULL" { Some((d.off, d.depth, 0)) } else { tags.get(d.tag.as_str()).map(|&t| (d.off, d.depth, t)) })
+            .collect();
+        let Some(items) = items else { continue };
+        let (e, sect, ah, sh, start) = (u.endian, u.sect, &u.abbrev_hex, &u.unit_hex, u.start);
+        // children flag: the next listed entry is one level deeper
+        let full: Vec<Item> = items
+            .iter()
+            .enumerate()
+            .map(|(i, &(o, d, t))| (o - start, d, t, t != 0 && items.get(i + 1).map_or(false, |n| n.1 == d + 1)))
+            .collect();
+        let exp = exp_tok(&items_s(&full), sh);
+        out.push(format!("die-hdr {e} {sect} {sh}"));
+        for st in ["raw", "rawskip", "entry", "dfs", "sib", "tree", "treeskip"] {
+            out.push(format!("die-nav {st} {e} {sect} {ah} {sh} - {exp}"));
+        }
+        let offs: Vec<String> = full.iter().take(300).map(|i| i.0.to_string()).collect();
+        out.push(format!("die-at {e} {sect} {ah} {sh} {} {exp}", offs.join(",")));
+        // a few start positions in the middle
+        for k in [full.len() / 3, full.len() / 2, full.len() - 1] {
+            out.push(format!("die-nav sib {e} {sect} {ah} {sh} {} {exp}", full[k].0));
+            out.push(format!("die-nav tree {e} {sect} {ah} {sh} {} {exp}", full[k].0));
         }
     }
     out
